@@ -146,21 +146,74 @@ pub fn emit_api_case(out: &mut String, id: u64, p: &str, f: &str, hays: &[String
     true
 }
 
-/// escape <seed> <n>: random strings s; prints s, escape(s)
+/// escape <seed> <n>: random strings s; prints s, escape(s), compile status under every flag set,
+/// and the matches of escape(s) in random texts t next to str::match_indices.
 pub fn cmd_escape(args: &[String]) {
     let seed: u64 = args[0].parse().unwrap();
     let n: u64 = args[1].parse().unwrap();
     let mut r = Rng::new(seed);
-    let alpha = ["\\", "^", "$", ".", "|", "?", "*", "+", "(", ")", "[", "]", "{", "}", "a", "b", "-", "/", "é", "\u{1F600}", "\n", " ", "1", ",", "&", "~", "#", "K", "\u{212A}", "\0"];
+    let alpha = ["\\", "^", "$", ".", "|", "?", "*", "+", "(", ")", "[", "]", "{", "}", "a", "b", "-", "/", "é", "\u{1F600}", "\n", " ", "1", ",", "&", "~", "#", "K", "k", "\u{212A}", "\0", "s", "\u{17F}", "ß", "A", "<", ">", "=", "!", ":", "n", "d", "w", "u", "0"];
+    let flagsets = ["", "i", "m", "s", "u", "v", "iu", "iv", "ms", "imsu", "imsv", "is"];
     let stdout = std::io::stdout();
     let mut w = std::io::BufWriter::new(stdout.lock());
     for _ in 0..n {
-        let k = r.below(9);
+        let k = if r.chance(1, 5) { 0 } else { r.below(4) + if r.chance(1, 4) { r.below(6) } else { 0 } };
         let mut s = String::new();
         for _ in 0..k {
             s.push_str(*r.pick(&alpha));
         }
-        writeln!(w, "S {} {}", cps_hex(&s), cps_hex(&regress::escape(&s))).unwrap();
+        let esc = regress::escape(&s);
+        writeln!(w, "S {} {}", cps_hex(&s), cps_hex(&esc)).unwrap();
+        // texts: embed s (or a case variant) in random surroundings
+        let mut texts: Vec<String> = vec![];
+        for _ in 0..3 {
+            let mut t = String::new();
+            let parts = r.below(4);
+            for _ in 0..parts {
+                match r.below(4) {
+                    0 => t.push_str(&s),
+                    1 => t.push_str(&s.to_uppercase()),
+                    2 => t.push_str(&s.to_lowercase()),
+                    _ => {
+                        let m = r.below(3);
+                        for _ in 0..m {
+                            t.push_str(*r.pick(&alpha));
+                        }
+                    }
+                }
+            }
+            texts.push(t);
+        }
+        for f in flagsets.iter() {
+            match Regex::with_flags(&esc, *f) {
+                Err(e) => writeln!(w, "F {} 0 {}", if f.is_empty() { "-" } else { f }, hex(e.text.as_bytes())).unwrap(),
+                Ok(re) => {
+                    writeln!(w, "F {} 1", if f.is_empty() { "-" } else { f }).unwrap();
+                    for t in &texts {
+                        let got = panic::catch_unwind(panic::AssertUnwindSafe(|| re.find_iter(t).map(|m| (m.start(), m.end())).collect::<Vec<_>>()));
+                        let mut line = format!("O {} {}", if f.is_empty() { "-" } else { f }, hex(t.as_bytes()));
+                        match got {
+                            Ok(v) => {
+                                write!(line, " {}", v.len()).unwrap();
+                                for (a, b) in v {
+                                    write!(line, " {} {}", a, b).unwrap();
+                                }
+                            }
+                            Err(_) => line.push_str(" PANIC"),
+                        }
+                        writeln!(w, "{}", line).unwrap();
+                    }
+                }
+            }
+        }
+        for t in &texts {
+            let v: Vec<(usize, usize)> = t.match_indices(s.as_str()).map(|(i, m)| (i, i + m.len())).collect();
+            let mut line = format!("X {} {}", hex(t.as_bytes()), v.len());
+            for (a, b) in v {
+                write!(line, " {} {}", a, b).unwrap();
+            }
+            writeln!(w, "{}", line).unwrap();
+        }
     }
 }
 
